@@ -201,7 +201,10 @@ def source_regex_accepts(text):
         def peek_token(self, i):
             return None
     c = Ctx()
-    CheckHeader.check_header(None, c)
+    try:
+        CheckHeader.check_header(None, c)
+    except Exception as e:  # noqa: the method no longer is the function of (context.header) the model stands for
+        return "probe-failed: %s: %s" % (type(e).__name__, str(e)[:120])
     return c.n == 0
 
 
@@ -443,6 +446,10 @@ def run(run, tier, seed, replay=None):
     # ---- correspondence (i): the expression
     regex_texts = list(dict.fromkeys(regex_texts))
     impl_acc = [source_regex_accepts(t) for t in regex_texts]
+    probe_failures = [a for a in impl_acc if isinstance(a, str)]
+    if probe_failures:
+        found |= run.violation("correspondence-regex", {"error": probe_failures[0], "what": "CheckHeader.check_header is no longer a function of context.header alone"})
+        regex_texts, impl_acc = [], []
     if b.make_ok and regex_texts:
         mod = model_search(regex_texts)
         for t, a, m in zip(regex_texts, impl_acc, mod):
